@@ -52,7 +52,7 @@ def state_str(o):
         f"{tid}:{t.status}:{fl_str(t.score) if t.status == 'COMPLETED' else '-'}:{o._run_times[tid] if tid in o._run_times else 0}"
         for tid, t in sorted(o.trials.items()))
     ong = ",".join(sorted(f"{k}={v.trial_id}" for k, v in o.ongoing_trials.items()))
-    return f"trials[{sts}] ongoing[{ong}] retry[{','.join(o._retry_queue)}] end[{','.join(o.end_order)}]"
+    return f"trials[{sts}] ongoing[{ong}] retry[{','.join(o._retry_queue)}] end[{','.join(o.end_order)}] tuners[{','.join(sorted(o.tuner_ids))}]"
 
 
 def has_streak(sts, k):
@@ -73,6 +73,7 @@ class Monitors:
     def reset_process(self, o):
         """a new process: nothing is handed out; the reports of interrupted runs are what the files hold"""
         self.out = {}
+        self.asked, self.told = set(), set()
         # the values a re-run carries are the ones the trial files hold (a report lost in the crash is lost)
         for tid, t in o.trials.items():
             self.startvals[tid] = canon_vals(t.hyperparameters.values)
@@ -128,6 +129,21 @@ class Monitors:
             raise Violation("C01", f"ended trial {tid} is recorded with status {t.status} (neither COMPLETED, FAILED nor queued for retry)", {"tag": "lost"})
         if t.status == "COMPLETED" and (t.score is None or t.score != t.score):
             raise Violation("C01", f"COMPLETED trial {tid} without a score", {"tag": "no-score"})
+
+    def exit_rule(self, o, w, t):
+        """C16, last clause: the chief may regard the search as finished (no trial running, no client left) only when
+        every worker that ever asked has been told STOPPED"""
+        self.asked = getattr(self, "asked", set())
+        self.told = getattr(self, "told", set())
+        self.asked.add(w)
+        if t.status == "STOPPED":
+            self.told.add(w)
+        else:
+            self.told.discard(w)
+        missing = (self.asked - self.told) - set(o.tuner_ids)
+        if missing:
+            raise Violation("C16", f"worker(s) {sorted(missing)} asked for trials and were never told STOPPED, but the oracle's client set is "
+                                   f"{sorted(o.tuner_ids)}: once nothing is running the chief would exit under them", {"tag": "exit-chief"})
 
     def on_create(self, o, w, t, held_before, rq_before, n_before):
         if held_before is not None:
@@ -535,6 +551,7 @@ def scenario(sseed, kind, mode, res, crash_at=None, second=None, maxlen=60):
                                 stopped.add(w)
                         lines.append(dict(suite="oracle", op="tried"))
                         expect.append(tried_str(o))
+                        mon.exit_rule(o, w, t)
                         mon.on_create(o, w, t, held, rq_before, n_before)
                         mon.invariants(o)
                         maxpar = max(maxpar, len(o.ongoing_trials))
